@@ -10,7 +10,7 @@ import traceback
 import z3
 
 from ..pyvc.spec import new_engine, verify, SpecError
-from ..pyvc.solver import discharge, cvc5_check
+from ..pyvc.solver import discharge, cvc5_check, discharge_parallel
 from ..pyvc.repo import Repo, repo_root
 from ..pyvc.values import KINDS
 from ..models import tokens as T
@@ -62,6 +62,8 @@ class Check:
         self.solver_time = 0.0
         self.known = load_known(pid)
         self.timeout_ms = 20000 if tier == "quick" else 120000
+        self.defer = False            # child process: collect failures, the parent reports them
+        self.pending = []
         os.makedirs(os.path.join(VERIF, "replays"), exist_ok=True)
         os.makedirs(os.path.join(VERIF, "evidence"), exist_ok=True)
 
@@ -102,18 +104,31 @@ class Check:
         if len(res.obligations) < contract.min_obligations:
             raise RuntimeError(f"vacuity: {contract.key} generated {len(res.obligations)} obligations, "
                                f"expected at least {contract.min_obligations}")
+        discharge_parallel([ob for ob in res.obligations if ob.kind != "mustfail"], self.timeout_ms)
         groups = {}
         for ob in res.obligations:
             groups.setdefault(ob.meta["base"], []).append(ob)
         for base, obs in groups.items():
             tg = 0.0
+            kind = obs[0].kind
             for ob in obs:
-                discharge(ob, self.timeout_ms)
+                if ob.result is None and kind != "mustfail":
+                    discharge(ob, self.timeout_ms)
                 tg += ob.time
                 self.solver_time += ob.time
-            kind = obs[0].kind
             if kind == "mustfail":
-                refuted = any(ob.result == "failed" for ob in obs)
+                # vacuity guard: one refuted instance is enough; short budget per path,
+                # shortest path conditions first
+                refuted = False
+                for ob in sorted(obs, key=lambda o: len(o.pc))[:12]:
+                    # quantified facts are left out: they only make the refutation harder to
+                    # find (precondition vacuity has its own check in verify())
+                    ob.pc = [t for t in ob.pc if not E.has_quantifier(t)]
+                    discharge(ob, 4000)
+                    self.solver_time += ob.time
+                    if ob.result == "failed":
+                        refuted = True
+                        break
                 self.vacuity.append({"guard": base, "refuted": refuted})
                 if not refuted:
                     raise RuntimeError(f"vacuity guard {base} was not refuted: the contract is too weak or "
@@ -151,10 +166,20 @@ class Check:
               or ob.meta.get("exception"),
               "verifier_output": {"result": "sat (obligation refuted)", "model": model_txt[:6000]},
               "repo": repo_root()}
+        if self.defer:
+            self.pending.append({"key": contract.key, "base": base, "rp": rp, "obligation": ob.name})
+            return
+        self.finalize_failed(contract.key, base, rp, replay, ob)
+
+    def finalize_failed(self, key, base, rp, replay, ob=None):
         confirmed = None
         if replay is not None:
             try:
-                confirmed = replay(ob, ob.model)
+                import inspect
+                if len(inspect.signature(replay).parameters) >= 3:
+                    confirmed = replay(ob, ob.model if ob is not None else None, base)
+                else:
+                    confirmed = replay(ob, ob.model if ob is not None else None)
             except Exception as e:      # replay harness problems never become verdicts
                 rp["replay_error"] = repr(e)
         if confirmed:
@@ -318,6 +343,58 @@ class Check:
               f"bounded-cases={sum(b['cases'] for b in self.bounded)} violations={len(self.violations)} "
               f"undecided={len(self.undecided)} wall={ev['wall_s']}s")
         return 1 if self.violations else 0
+
+
+def _parallel_job(job):
+    """child process: verify one contract with its own engine"""
+    pid, tier, seed, label, modname, funcname, args, installs = job
+    import importlib
+    chk = Check(pid, tier, seed)
+    chk.defer = True
+    E = chk.engine()
+    for m in installs:
+        importlib.import_module(m).install(E)
+    mod = importlib.import_module(modname)
+    contract, variant = getattr(mod, funcname)(E, *args)
+    t0 = time.time()
+    try:
+        chk.run_contract(E, contract, variant=variant)
+        err = None
+    except Exception:
+        err = traceback.format_exc()
+    from ..pyvc.solver import shutdown_pool
+    shutdown_pool()
+    if os.environ.get("VERIF_PROGRESS"):
+        print(f"[job {label}] {time.time() - t0:.1f}s", file=sys.stderr, flush=True)
+    return {"label": label, "items": [(i.name, i.kind, i.status, i.backend, i.time_s, i.detail) for i in chk.items],
+            "functions": chk.functions, "notes": chk.notes, "undecided": chk.undecided, "vacuity": chk.vacuity,
+            "pending": chk.pending, "solver_time": chk.solver_time, "error": err}
+
+
+def run_parallel(chk, jobs, installs, replays=None, procs=8):
+    """jobs: (label, module, function, args); function(E, *args) -> (contract, variant).
+    Each contract is verified in its own process; results are merged in job order."""
+    import multiprocessing as mp
+    from concurrent.futures import ProcessPoolExecutor
+    full = [(chk.pid, chk.tier, chk.seed, lab, m, f, a, installs) for lab, m, f, a in jobs]
+    with ProcessPoolExecutor(max_workers=procs, mp_context=mp.get_context("spawn")) as ex:
+        results = list(ex.map(_parallel_job, full))
+    for r in results:
+        if r["error"]:
+            raise RuntimeError(f"contract job {r['label']} crashed:\n{r['error']}")
+        for name, kind, status, backend, t, detail in r["items"]:
+            chk.items.append(Item(name, kind, status, backend, t, detail))
+        chk.functions += r["functions"]
+        chk.undecided += r["undecided"]
+        chk.vacuity += r["vacuity"]
+        chk.solver_time += r["solver_time"]
+        for n in r["notes"]:
+            if n not in chk.notes:
+                chk.notes.append(n)
+        for p in r["pending"]:
+            rp_fn = (replays or {}).get(p["key"].split(":")[1])
+            chk.finalize_failed(p["key"], p["base"], p["rp"], rp_fn, None)
+    return results
 
 
 def safe(s):
